@@ -110,6 +110,9 @@ func pricedClasses() []priced {
 	attrs := store(func(leg *world.Leg) uint64 { return uint64(len(leg.Input.Arguments[2])) })
 	add("ESDTNFTUpdateAttributes/empty", "ESDTNFTUpdateAttributes", call(A0, A0, vmcommon.BuiltInFunctionESDTNFTUpdateAttributes, uni.S, uni.Big(1), []byte{}), attrs, 1)
 	add("ESDTNFTUpdateAttributes/17", "ESDTNFTUpdateAttributes", call(A0, A0, vmcommon.BuiltInFunctionESDTNFTUpdateAttributes, uni.S, uni.Big(1), make([]byte, 17)), attrs, 1)
+	// the attributes the holding already has (created with "a"): stored bytes are priced on every call
+	add("ESDTNFTUpdateAttributes/same-as-stored", "ESDTNFTUpdateAttributes", call(A0, A0, vmcommon.BuiltInFunctionESDTNFTUpdateAttributes, uni.S, uni.Big(1), []byte("a")), attrs, 1)
+	add("ESDTNFTAddURI/same-as-stored", "ESDTNFTAddURI", call(A0, A0, vmcommon.BuiltInFunctionESDTNFTAddURI, uni.S, uni.Big(1), []byte("u")), uris, 1)
 	add("ESDTNFTTransfer/cross-shard", "ESDTNFTTransfer", uni.NFTTransfer(A0, C1, uni.S, 1, 1), copyBytes, 1)
 	add("ESDTNFTTransfer/cross-shard-with-call", "ESDTNFTTransfer", uni.NFTTransfer(A0, uni.S1c, uni.S, 1, 2, []byte("f")), copyBytes, 1)
 	add("MultiESDTNFTTransfer/same-shard-1-fungible", "ESDTNFTMultiTransfer", uni.Multi(A0, B0, []uni.Ent{{Tok: uni.F, Nonce: 0, Q: 1}}), none, 1)
